@@ -538,7 +538,7 @@ pub fn run(ctx: &Ctx, rep: &mut Report) {
         cases,
         |ctx, p: &Plan, acc| check_plan(ctx, p, acc, true),
     );
-    let n = ctx.cases(40_000, 800_000);
+    let n = ctx.cases(40_000, 5_000_000);
     run_prop(
         ctx,
         rep,
@@ -583,7 +583,7 @@ pub fn run(ctx: &Ctx, rep: &mut Report) {
             check_plan(ctx, p, acc, true)
         },
     );
-    let n = ctx.cases(60_000, 1_000_000);
+    let n = ctx.cases(60_000, 5_000_000);
     run_prop(
         ctx,
         rep,
